@@ -225,6 +225,9 @@ func gen(max int) (*gstate, int) {
 			g.lastText[depth] = false
 		case cPI:
 			tg := symLocal()
+			if nd.Choice(2) == 1 {
+				tg = "xml-stylesheet" // an ordinary PI whose target merely starts with "xml"
+			}
 			g.toks = append(g.toks, hx.XTok{Kind: hx.XPI, Local: tg, Data: "d"})
 			g.d.Add(top, spec.Node{Kind: spec.PI, Local: tg, Value: "d"})
 			g.lastText[depth] = false
